@@ -8,6 +8,7 @@ import (
 	"runtime"
 	"strings"
 	"sync"
+	"sync/atomic"
 	"time"
 
 	"github.com/fullstorydev/emulators/storage/gcsutil"
@@ -22,7 +23,7 @@ func init() { register("C19", "exploration", runC19) }
 func runC19(run *common.Run) {
 	run.Rule = "case = one execution of the real TransientLockMap by 2-3 worker goroutines (scripts of 2 rounds of Lock/Unlock or Run over keys {a,b}, optionally one scripted Unlock of an unheld key) in which every worker is parked at every verif hook point and moves only when the scheduler grants one step or cancels its context; after every step the real map (VerifLen, VerifSlotFull per key) is compared with the shadow state (holder, refcount, queue per key) and every return value with what the hooks showed. " +
 		"sub graph2 (both tiers) / graph3 (thorough): for every program of the family (all key assignments up to key renaming and worker permutation x {plain, worker 0 unlocks unheld key a between its rounds, last worker unlocks unheld key b first}) the graph of abstract states (per worker: round, hook point, cancel flag; queue order) is explored by replay from the start until every enabled scheduler action of every reached node was executed at least once (a step whose outcome Go's select picks at random, slot free and context cancelled, until both outcomes were seen or 50 executions). exhaustive=true means exactly this: complete transition coverage of those graphs for the families run in this tier (2 workers x 2 keys x 2 rounds with cancellation in quick; additionally 3 x 2 x 2 with cancellation in thorough); path coverage is not claimed. " +
-		"sub walk: seeded random schedules over random 3-worker programs. sub runexit: the callback of Run is left by return nil / return error / panic / runtime.Goexit with 0-2 callers queued on the key: the waiters acquire, a fresh Lock succeeds, the idle map is empty. sub stress: 32 free-running goroutines, 3 keys, random cancellation, race detector, in-critical-section counter per key, empty map at the end. " +
+		"sub walk: seeded random schedules over random 3-worker programs. sub runexit: the callback of Run is left by return nil / return error / panic / runtime.Goexit with 0-2 callers queued on the key: the waiters acquire, a fresh Lock succeeds, the idle map is empty. sub burst: rounds in which 96 keys are held at once and released together while eight callers contend for one hot key (mutual exclusion counter, no panic, idle map empty after every round). sub stress: 32 free-running goroutines, 3 keys, random cancellation, race detector, in-critical-section counter per key, empty map at the end. " +
 		"Non-trivial = in the execution some worker queued behind a holder of the same key or a cancel hit a queued worker; distinct by hash of program + schedule + outcomes."
 	run.Assumptions = []string{
 		"worker identity is the goroutine id parsed from runtime.Stack; hook points are those of /repo's verif_on.go and sit outside the map mutex",
@@ -69,8 +70,101 @@ func runC19(run *common.Run) {
 	if run.WantSub("runexit") && !run.TooMany() {
 		c19RunExit(run)
 	}
+	if run.WantSub("burst") && !run.TooMany() {
+		c19Burst(run)
+	}
 	if run.WantSub("stress") && !run.TooMany() {
 		c19Stress(run)
+	}
+}
+
+// c19Burst: the map grows to ~100 simultaneously held keys and drains again, over and over, while eight callers keep
+// contending for one hot key: whatever the map does to its own bookkeeping when it grows or shrinks, the hot key must
+// stay mutually exclusive, nobody may panic, and the idle map must be empty after every round.
+func c19Burst(run *common.Run) {
+	rounds := run.N(150, 5000)
+	m := gcsutil.NewTransientLockMap()
+	var inCS atomic.Int32
+	var bad atomic.Value
+	fail := func(s string) { bad.CompareAndSwap(nil, s) }
+	for round := 0; round < rounds && bad.Load() == nil && !run.TooMany(); round++ {
+		if !run.Want("burst", round) {
+			continue
+		}
+		const H = 96
+		var held, contenders sync.WaitGroup
+		release := make(chan struct{})
+		stop := make(chan struct{})
+		for c := 0; c < 8; c++ {
+			contenders.Add(1)
+			go func() {
+				defer contenders.Done()
+				defer func() {
+					if r := recover(); r != nil {
+						fail(fmt.Sprintf("a caller of the hot key panicked: %v", r))
+					}
+				}()
+				for {
+					select {
+					case <-stop:
+						return
+					default:
+					}
+					ctx, cancel := context.WithTimeout(context.Background(), 20*time.Second)
+					ok := m.Lock(ctx, "hot")
+					cancel()
+					if !ok {
+						fail("Lock(hot) returned false within 20 s although every holder unlocks at once")
+						return
+					}
+					if n := inCS.Add(1); n != 1 {
+						fail(fmt.Sprintf("mutual exclusion: %d callers hold the hot key at once (round %d)", n, round))
+					}
+					runtime.Gosched()
+					inCS.Add(-1)
+					m.Unlock("hot")
+				}
+			}()
+		}
+		var ready sync.WaitGroup
+		for h := 0; h < H; h++ {
+			held.Add(1)
+			ready.Add(1)
+			go func(h int) {
+				defer held.Done()
+				defer func() {
+					if r := recover(); r != nil {
+						fail(fmt.Sprintf("a holder of a burst key panicked: %v", r))
+					}
+				}()
+				key := fmt.Sprintf("burst-%d", h)
+				if !m.Lock(context.Background(), key) {
+					fail("Lock of an uncontended key returned false")
+					ready.Done()
+					return
+				}
+				ready.Done()
+				<-release
+				m.Unlock(key)
+			}(h)
+		}
+		ready.Wait()
+		run.Max("max_keys_held_at_once", int64(m.VerifLen()))
+		close(release)
+		held.Wait()
+		for spin := 0; spin < 50; spin++ {
+			runtime.Gosched()
+		}
+		close(stop)
+		contenders.Wait()
+		if n := m.VerifLen(); n != 0 && bad.Load() == nil {
+			fail(fmt.Sprintf("nobody holds or awaits a lock, but the map retains %d entries after round %d", n, round))
+		}
+		run.Case(common.Hash64("burst", fmt.Sprint(round)), true)
+		run.Count("burst_rounds", 1)
+	}
+	if b, _ := bad.Load().(string); b != "" {
+		run.Violation("burst", 0, b, nil)
 	}
 }
 
